@@ -204,11 +204,15 @@ LocalFollowN(G, Fo, Own, ri, narrow) ==
   \cup (IF nm \in PartNames(G) THEN {MarkOf(G, nm)} ELSE {})
 
 \* pairs <<code, node>> that the definition requires (Must) and that it
-\* tolerates (May: the weak reading for predicates, DESIGN section 5 C10)
+\* tolerates (May: the weak reading for predicates, DESIGN section 5 C10).
+\* A guard settles a shared token only when it is on the EARLIER branch of the pair: the
+\* branches are tried in source order, so an unguarded earlier branch takes the token
+\* unconditionally and a guard on the later one is never asked ("predicate-guarded first
+\* branch exempt" in the property's mechanism).  Hence Must = May for plain alternations.
 AltPairsMust(G, Pd, brs) ==
   {<<"E011", brs[i]>> : i \in {i \in DOMAIN brs :
       ~Guarded(G, brs[i]) /\
-      \E j \in DOMAIN brs : j > i /\ ~Guarded(G, brs[j]) /\ Pd[brs[i]] \cap Pd[brs[j]] # {}}}
+      \E j \in DOMAIN brs : j > i /\ Pd[brs[i]] \cap Pd[brs[j]] # {}}}
 AltPairsMay(G, Pd, brs) ==
   {<<"E011", brs[i]>> : i \in {i \in DOMAIN brs :
       ~Guarded(G, brs[i]) /\
